@@ -8,5 +8,6 @@ CONSTANTS
   MaxDeletes = 3
   Coords = {"A", "B", "X"}
   MaxRestores = 2
+  Shapes = {"plain", "dup", "empty"}
   GetDs = {0, 1}
 CHECK_DEADLOCK FALSE
